@@ -276,7 +276,8 @@ class Vocab:
             elif hi == 255:
                 v = r.choice([0, 1, 128, 255])  # colour components are written as integers
             else:
-                v = r.choice([lo, min(hi, lo + 1), min(hi, lo + 2.5), min(hi, lo + 0.000001), min(hi, lo + 123456.789)])
+                v = r.choice([lo, min(hi, lo + 1), min(hi, lo + 2.5), min(hi, lo + 0.000001), min(hi, lo + 123456.789),
+                              min(hi, lo + 1.23456789e-05), min(hi, lo + 2.5e-11), min(hi, lo + 0.000123456789012)])
                 if float(v).is_integer() and r.random() < 0.5:
                     v = int(v)
             return v, [["N", str(v)]]
